@@ -119,12 +119,23 @@ Definition dec_int_kernel (w s : Z) (obits : Z) (osigned : bool) : kernel :=
    Exact rescaling of the represented number with round-half-away-from-zero (on unbounded Z). *)
 Definition round_half_away (div x : Z) : Z :=
   if 0 <=? x then (2 * x + div) / (2 * div) else - ((2 * (- x) + div) / (2 * div)).
-Definition rescale_spec (s1 s2 : Z) (x : Z) : Z :=
-  if s1 <=? s2 then x * 10 ^ (s2 - s1) else round_half_away (10 ^ (s1 - s2)) x.
-Definition in_prec (p : Z) (v : Z) : bool := Z.abs v <? 10 ^ p.
-Definition dec_dec_spec (s1 p2 s2 : Z) (x : Z) : option Z :=
-  let r := rescale_spec s1 s2 x in if in_prec p2 r then Some r else None.
-Definition int_dec_spec (p s : Z) (v : Z) : option Z :=
-  let r := if s <? 0 then Z.quot v (10 ^ (- s)) else v * 10 ^ s in if in_prec p r then Some r else None.
-Definition dec_int_spec (s : Z) (obits : Z) (osigned : bool) (v : Z) : option Z :=
-  let r := if s <? 0 then v * 10 ^ (- s) else Z.quot v (10 ^ s) in num_cast obits osigned r.
+(* (the powers of ten are bound outside the per-value function so that the extracted model computes
+   them once per column; up to beta/zeta these are the plain formulas) *)
+Definition rescale_spec (s1 s2 : Z) : Z -> Z :=
+  let up := 10 ^ (s2 - s1) in
+  let dn := 10 ^ (s1 - s2) in
+  fun x => if s1 <=? s2 then x * up else round_half_away dn x.
+Definition in_prec (p : Z) : Z -> bool := let lim := 10 ^ p in fun v => Z.abs v <? lim.
+Definition dec_dec_spec (s1 p2 s2 : Z) : Z -> option Z :=
+  let ok := in_prec p2 in
+  let conv := rescale_spec s1 s2 in
+  fun x => let r := conv x in if ok r then Some r else None.
+Definition int_dec_spec (p s : Z) : Z -> option Z :=
+  let ok := in_prec p in
+  let dn := 10 ^ (- s) in
+  let up := 10 ^ s in
+  fun v => let r := if s <? 0 then Z.quot v dn else v * up in if ok r then Some r else None.
+Definition dec_int_spec (s : Z) (obits : Z) (osigned : bool) : Z -> option Z :=
+  let up := 10 ^ (- s) in
+  let dn := 10 ^ s in
+  fun v => let r := if s <? 0 then v * up else Z.quot v dn in num_cast obits osigned r.
